@@ -351,6 +351,66 @@ fn run_session_once(ctx: &Ctx, lines: &[String], eof_after: Option<usize>, raw_t
     Ok(())
 }
 
+/// One long-lived engine process: `n` searches of 1.2 million nodes on quiet endgames, then one
+/// line of every kind, each followed by isready; ended by quit or by end-of-input.
+pub fn soak_session(ctx: &Ctx, corp: &corpus::Corpus, n: usize, end_quit: bool, rep: &mut Report) -> Result<(), Violation> {
+    let quiet: Vec<&String> = corp.fens.iter().zip(corp.positions.iter()).filter(|(_, p)| p.material_count() <= 9 && p.legal_moves().len() >= 4 && !p.in_check(p.wtm)).map(|(f, _)| f).collect();
+    if quiet.len() < 8 {
+        return Ok(());
+    }
+    let mut eng = match Engine::spawn(&ctx.engine, &[]) {
+        Ok(e) => e,
+        Err(e) => {
+            rep.infra_errors.push(format!("cannot spawn engine: {e}"));
+            return Ok(());
+        }
+    };
+    rep.eval(1);
+    rep.class("soak:long-lived-process");
+    rep.nontrivial(o::hash_str(&format!("soak-{n}-{end_quit}")));
+    let replay = json!({"soak": n, "end_quit": end_quit});
+    let fail = |clause: &str, sig: String, detail: String, eng: &Engine| -> Violation {
+        let mut r = replay.clone();
+        r["transcript"] = json!(eng.transcript(30));
+        Violation::new(clause, &sig, detail, r)
+    };
+    for k in 0..n {
+        eng.send(&format!("position fen {}", quiet[(k * 5 + end_quit as usize) % quiet.len()]));
+        eng.send("go nodes 1200000");
+        // searches are C09's subject: wait for the answer without judging it
+        if eng.wait_for(Duration::from_secs(300), |e| (e.stream == Stream::Out && e.line.starts_with("bestmove")) || e.eof).map_or(true, |e| e.eof) {
+            rep.class("soak:abandoned(no bestmove: C09's subject)");
+            return Ok(());
+        }
+    }
+    let after = ["ucinewgame", "setoption name Hash value 16", "position startpos moves e2e4", "xyzzy", "go nodes", "ucinewgame", "position fen 8/8/8/3k4/8/3K4/8/8 w - - 0 1", "stop", "uci"];
+    for l in after {
+        eng.send(l);
+        let mut fine = eng.ready(Duration::from_secs(3));
+        if !fine && main_thread_panicked(&eng).is_none() && eng.try_status().is_none() {
+            // a pure-allowance verdict is confirmed with a long allowance (see run_session)
+            fine = eng.wait_for(Duration::from_secs(20), |e| e.stream == Stream::Out && e.line.trim() == "readyok").is_some();
+        }
+        if !fine {
+            let what = match (main_thread_panicked(&eng), eng.try_status()) {
+                (Some(p), _) => format!("main thread panicked: {p}"),
+                (None, Some(st)) => format!("engine exited with {st}"),
+                _ => "engine alive but silent for 23 s".to_string(),
+            };
+            return Err(fail("survive", format!("survive/after-long-session/{}", l.split_whitespace().next().unwrap_or("")), format!("after {n} searches of 1.2 million nodes in one process, '{l}' was not followed by readyok: {what}"), &eng));
+        }
+    }
+    if end_quit {
+        eng.send("quit");
+    } else {
+        eng.close_stdin();
+    }
+    if eng.wait_exit(Duration::from_secs(23)).is_none() {
+        return Err(fail("quit", "quit/no-exit/after-long-session".into(), format!("after {n} searches of 1.2 million nodes in one process the engine did not terminate within 23 s of {}", if end_quit { "quit" } else { "end-of-input" }), &eng));
+    }
+    Ok(())
+}
+
 pub const SHARDS: usize = 8;
 
 /// Every single malformed shape on its own (so a shallow defect cannot hide the others),
@@ -375,6 +435,14 @@ pub fn run(ctx: &Ctx) -> Report {
             }
         }
     };
+    // soak: the command loop of a process that has searched for a long time (millions of nodes,
+    // a cache with hundreds of thousands of entries) must still take every kind of line: after
+    // the searches each line is followed by isready, the session ends with quit (shard 1) or
+    // end-of-input (shard 2)
+    if ctx.shard_index() == 1 || ctx.shard_index() == 2 {
+        let r = soak_session(ctx, &corp, ctx.tier.pick(8usize, 80), ctx.shard_index() == 1, &mut rep);
+        note(r, &mut rep);
+    }
     if ctx.shard_index() == 0 {
         for eof_at in [0usize, 1, 2] {
             let lines = vec!["isready".to_string(), "position startpos moves e2e4".to_string()];
@@ -493,6 +561,13 @@ pub fn run(ctx: &Ctx) -> Report {
 
 pub fn replay(ctx: &Ctx, case: &Value) -> Report {
     let mut rep = Report::new();
+    if let Some(n) = case["soak"].as_u64() {
+        let corp = corpus::load(&ctx.verif);
+        if let Err(v) = soak_session(ctx, &corp, n as usize, case["end_quit"].as_bool().unwrap_or(true), &mut rep) {
+            rep.violation(v);
+        }
+        return rep;
+    }
     let lines: Vec<String> = case["lines"].as_array().map(|a| a.iter().filter_map(|x| x.as_str().map(String::from)).collect()).unwrap_or_default();
     let eof_after = case["eof_after"].as_u64().map(|x| x as usize);
     let tail: Option<Vec<u8>> = case["raw_tail_hex"].as_str().map(|h| (0..h.len() / 2).filter_map(|i| u8::from_str_radix(&h[2 * i..2 * i + 2], 16).ok()).collect());
@@ -503,5 +578,5 @@ pub fn replay(ctx: &Ctx, case: &Value) -> Report {
 }
 
 pub const LEVEL: &str = "exploration";
-pub const RULE: &str = "sessions of 1..25 lines against the real engine binary, each line drawn from a grammar over the UCI vocabulary: the eight commands with well-formed arguments (go budgets that end by themselves), go keywords with the value dropped / duplicated / reordered / replaced by junk (negative, 1e3, 0x10, 40-digit, words, empty, non-ASCII digits), go flags in odd places, setoption with name/value in every order and multiplicity, position with unknown kind / missing 'moves' / empty or illegal or malformed move lists (FEN arguments are always valid FEN, in 6-field and in 4-field form), unknown words, blank lines, tabs, 10 kB lines, non-ASCII text; plus fixed cases: end-of-input at the start, after a line, in the middle of a line, and bytes that are not valid UTF-8. Plus an in-process layer (hook H4): token soups over the vocabulary that never start a search, fed to a session object; any panic is what would have killed the real main thread. Plus a text-mutation layer (fuzzuci.rs, in-process): generator sessions as raw text with 0..6 blind byte/token mutations, every line that does not carry an invalid FEN argument is fed (lines with a go/quit word only through the parser, hook H4b) and must not panic; the thorough tier adds a coverage-guided libFuzzer campaign (target fuzz_uci) over the same oracle. Ending of the process sessions: stop + isready (readyok within 3 s, main thread not panicked) + quit (exit status 0 within 3 s), or end-of-input after a generated line (exit within 3 s); a verdict that rests on the 3 s allowance alone (engine alive and silent, no panic, no output flood) is confirmed by running the same session again, twice, with 20 s, and reported only if it is still there. A search-thread panic is C09's subject and ignored here. Non-trivial = session containing at least one malformed line; distinct by (text, ending).";
+pub const RULE: &str = "sessions of 1..25 lines against the real engine binary, each line drawn from a grammar over the UCI vocabulary: the eight commands with well-formed arguments (go budgets that end by themselves), go keywords with the value dropped / duplicated / reordered / replaced by junk (negative, 1e3, 0x10, 40-digit, words, empty, non-ASCII digits), go flags in odd places, setoption with name/value in every order and multiplicity, position with unknown kind / missing 'moves' / empty or illegal or malformed move lists (FEN arguments are always valid FEN, in 6-field and in 4-field form), unknown words, blank lines, tabs, 10 kB lines, non-ASCII text; plus fixed cases: end-of-input at the start, after a line, in the middle of a line, and bytes that are not valid UTF-8. Plus an in-process layer (hook H4): token soups over the vocabulary that never start a search, fed to a session object; any panic is what would have killed the real main thread. Plus a text-mutation layer (fuzzuci.rs, in-process): generator sessions as raw text with 0..6 blind byte/token mutations, every line that does not carry an invalid FEN argument is fed (lines with a go/quit word only through the parser, hook H4b) and must not panic; the thorough tier adds a coverage-guided libFuzzer campaign (target fuzz_uci) over the same oracle. Ending of the process sessions: stop + isready (readyok within 3 s, main thread not panicked) + quit (exit status 0 within 3 s), or end-of-input after a generated line (exit within 3 s); a verdict that rests on the 3 s allowance alone (engine alive and silent, no panic, no output flood) is confirmed by running the same session again, twice, with 20 s, and reported only if it is still there. Plus a soak: two long-lived engine processes (8 quick / 80 thorough searches of 1.2 million nodes each on quiet endgames, so the cache holds hundreds of thousands of entries) are then sent ucinewgame, setoption, position, an unknown word, a truncated go, stop and uci, each followed by isready, and ended by quit / end-of-input. A search-thread panic is C09's subject and ignored here. Non-trivial = session containing at least one malformed line; distinct by (text, ending).";
 pub const ASSUMPTIONS: &[&str] = &["FEN arguments are valid (the statement's assumption)", "3 s stands in for 'promptly'; 8 engine processes run concurrently"];
